@@ -395,6 +395,99 @@ theorem C13_multi_waiter_partial {cfg : Cfg} {kinds : List Kind} {wnd infl : Nat
     ∀ t ∈ s.ths, t.kind = .read → t.pc = .sel → quiescent cfg s = false ∧ ∀ t', step cfg s (.tick t') = none :=
   (C13_multi_waiter hchain h).1 (by simp only [Sh.readable]; omega)
 
+/-! ## C13: liveness on the LTS — every blocked call whose condition becomes true returns -/
+
+/-- Between two environment events / ticks only thread steps and timer expiries happen (maximal
+progress).  Such a phase is finite: at most `measure s` steps from `s` (a return lowers the number of
+active callers and issues at most one chain token, taking a token lowers the number of tokens, every
+other step lowers the caller's rank) — so a quiescent state is always reached; nobody spins. -/
+theorem C13_progress_terminates {cfg : Cfg} {s s' : State} (ls : List Label)
+    (hall : ∀ l ∈ ls, l.isProgress = true) (hr : run cfg s ls = some s') :
+    ls.length + measure s' ≤ measure s ∧ ls.length ≤ measure s := by
+  have := run_measure ls hall hr
+  exact ⟨this, by omega⟩
+
+/-- Time is never stuck either: in a quiescent state a `tick` to any later instant up to the next
+timer expiry is enabled (and no further, `tick_spec`), at which instant the expiry is enabled. -/
+theorem C13_time_advances {cfg : Cfg} {s : State} {t' : Time} (hq : quiescent cfg s = true) (hlt : s.sh.now < t')
+    (harm : ∀ t ∈ s.ths, ∀ w, t.armed = some w → t' ≤ w) : (step cfg s (.tick t')).isSome = true := by
+  rw [tick_enabled hq hlt harm]; rfl
+
+/-- `blocked_call_returns` — repaired loops, any number of callers of every kind.  In the quiescent
+state that ends a phase (it exists: `C13_progress_terminates`) every caller is idle, has returned, or
+is blocked in its `select`, and a caller that is still blocked has **none** of its wake-up conditions:
+* Read: nothing readable (leftover bytes included; chain wake), session open, no socket error;
+* Write: session open, no socket error, and — one writer — the window is full;
+* Accept: empty backlog, listener open, no socket error;
+* the deadline it loaded lies strictly in the future; for one reader / one writer so does the deadline
+  in force (the cell).
+Contrapositive = liveness: once data has arrived (enough of it: one `Read` per message or leftover),
+the window has opened, the deadline (finite) has been reached — time advances up to it and not
+beyond, `C13_time_advances`, `C13_deadline_exact_1` —, Close or a socket error has happened, the
+call has returned when the phase ends, i.e. within the same virtual instant, after finitely many steps.
+Not covered (recorded finding D8): a deadline changed while ≥ 2 callers are blocked, or while
+Accept is blocked, is honoured only as the *loaded* value. -/
+theorem C13_blocked_call_returns {cfg : Cfg} {kinds : List Kind} {wnd infl : Nat} {s : State} {t : Thread}
+    (hc : cfg.repoint = true) (hr : cfg.rearm = true) (hchain : cfg.chain = true)
+    (h : Reach cfg (init kinds wnd infl) s) (hq : quiescent cfg s = true) (ht : t ∈ s.ths) :
+    (t.pc = .idle ∨ t.pc = .done ∨ t.pc = .sel) ∧
+    (t.pc = .sel →
+      (t.kind = .read → s.sh.readable = 0 ∧ s.sh.die = false ∧ s.sh.rerr = false) ∧
+      (t.kind = .write → s.sh.die = false ∧ s.sh.werr = false ∧ (SingleK .write kinds → s.sh.wnd ≤ s.sh.inflight)) ∧
+      (t.kind = .accept → s.sh.backlog = 0 ∧ s.sh.ldie = false ∧ s.sh.lerr = false) ∧
+      (∀ d, t.seen = some d → s.sh.now < d) ∧
+      (t.kind = .read → SingleK .read kinds → ∀ d, s.sh.rd = some d → s.sh.now < d) ∧
+      (t.kind = .write → SingleK .write kinds → ∀ d, s.sh.wd = some d → s.sh.now < d)) := by
+  have hns := not_canStep_of_quiescent hq ht
+  refine ⟨quiescent_pcs hq ht (reach_pcOK h t ht), ?_⟩
+  intro hp
+  obtain ⟨i, hi⟩ := List.getElem?_of_mem ht
+  have no : ∀ {ch : Choice}, (tstep cfg s.sh t ch).isSome = true → False := by
+    intro ch hch
+    have := canStep_of_choice ch hch
+    simp [hns] at this
+  have bfalse : ∀ {b : Bool}, (b = true → False) → b = false := by
+    intro b hb; cases b <;> simp_all
+  refine ⟨?_, ?_, ?_, ?_, ?_, ?_⟩
+  · intro hk
+    refine ⟨?_, bfalse fun hd => no (ch := .die) (by simp [tstep, tstepRead, hk, hp, hd]),
+      bfalse fun hd => no (ch := .err) (by simp [tstep, tstepRead, hk, hp, hd])⟩
+    rcases Nat.eq_zero_or_pos s.sh.readable with h0 | hpos
+    · exact h0
+    · have := ((C13_multi_waiter hchain h).1 hpos).2 t ht hk hp
+      simp [hq] at this
+  · intro hk
+    refine ⟨bfalse fun hd => no (ch := .die) (by simp [tstep, tstepWrite, hk, hp, hd]),
+      bfalse fun hd => no (ch := .err) (by simp [tstep, tstepWrite, hk, hp, hd]), ?_⟩
+    intro hs
+    rcases Nat.lt_or_ge s.sh.inflight s.sh.wnd with hroom | hfull
+    · have := ((C13_no_lost_wakeup_1 (cfg := cfg) h hi hp).2 hk hs hroom).2.1
+      simp [hns] at this
+    · exact hfull
+  · intro hk
+    refine ⟨?_, bfalse fun hd => no (ch := .die) (by simp [tstep, tstepAccept, hk, hp, hd]),
+      bfalse fun hd => no (ch := .err) (by simp [tstep, tstepAccept, hk, hp, hd])⟩
+    rcases Nat.eq_zero_or_pos s.sh.backlog with h0 | hpos
+    · exact h0
+    · exact (no (ch := .tok) (by simp [tstep, tstepAccept, hk, hp, hpos])).elim
+  · intro d hd
+    rcases Nat.lt_or_ge s.sh.now d with hlt | hge
+    · exact hlt
+    · have := canStep_deadline_passed (cfg := cfg) (reach_timerInv hc hr h t ht) hp hd hge
+      simp [hns] at this
+  · intro hk hs d hd
+    rcases Nat.lt_or_ge s.sh.now d with hlt | hge
+    · exact hlt
+    · have := (C13_deadline_exact_1 (cell := s.sh.rd) (tok := s.sh.rtok) hc hr h hi hp
+        (Or.inl ⟨hk, hs, rfl, rfl⟩)).2.1 d hd hge
+      simp [hns] at this
+  · intro hk hs d hd
+    rcases Nat.lt_or_ge s.sh.now d with hlt | hge
+    · exact hlt
+    · have := (C13_deadline_exact_1 (cell := s.sh.wd) (tok := s.sh.wtok) hc hr h hi hp
+        (Or.inr ⟨hk, hs, rfl, rfl⟩)).2.1 d hd hge
+      simp [hns] at this
+
 /-! ## non-vacuity and the repaired loops on the defect schedules -/
 
 /-- possible outcomes (return, virtual time) of caller `i` under maximal progress, for a schedule of
@@ -434,6 +527,9 @@ example : (outcomes (cfgOrig false) (init [.read, .read] 1) [(0, .call 0 100), (
 example : (run (cfgFixed false) (init [.read] 1)
     [.arrive [8], .call 0 3, .thr 0 .go, .thr 0 .go]).map (fun s => (s.sh.left, s.sh.queue, s.ths.map (·.got)))
     = some (5, [], [3]) := by decide
+/-- the termination measure of a state with two fresh calls (2 × (27 + rank 8)); hypotheses of
+`C13_blocked_call_returns` are met by the quiescent blocked state of the last example below -/
+example : (run (cfgFixed false) (init [.read, .read] 1) [.call 0 64, .call 1 64]).map measure = some 70 := by decide
 /-- set→past: returns at the instant of the change -/
 example : outcomes (cfgFixed true) (init [.read] 1)
     [(0, .setRD (some 700)), (0, .call 0 64), (200, .setRD (some 100))] 1000 0 = [some (.timeout, 200)] := by decide
